@@ -1,3 +1,5 @@
+//go:build !realtree
+
 package main
 
 import (
